@@ -183,7 +183,7 @@ pub fn run(opts: &Opts) -> i32 {
                         format!("blocks={}", rng.pick(&[40u64, 56, 96])),
                         format!("ops={}", rng.range(40, 120)),
                     ],
-                    120,
+                    360,
                 )
                 .unwrap_or_default();
                 if g.is_empty() || g.contains("TIMEOUT") || g.contains("CHILD-DIED") {
